@@ -354,9 +354,26 @@ fn one_family<F: Fam>(rng: &mut Rng, rep: &mut Report, base: u64) {
     VClock::set_ms(base);
     let seed = rng.next();
     let orig = Arc::new(rules[0].clone());
-    if let Some(t1) = F::enforce(&orig, seed) {
+    // (a panic while a rule is being enforced is C12's business, but it must not take the shard down:
+    // it is reported here as well, as a violation of "enforced identically", and the shard stops)
+    let e1 = match common::catch(|| F::enforce(&orig, seed)) {
+        Ok(t) => t,
+        Err(p) => {
+            rep.violation(&format!("{fam}/enforcement-panics/{}", common::panic_site(&p)), format!("enforcing the original rule panicked: {p}"), case(json!("enforce")));
+            rep.notes.push("stopped after a panic inside the library".into());
+            return;
+        }
+    };
+    if let Some(t1) = e1 {
         VClock::set_ms(base + 200_000);
-        if let Some(t2) = F::enforce(&parsed[0], seed) {
+        let e2 = match common::catch(|| F::enforce(&parsed[0], seed)) {
+            Ok(t) => t,
+            Err(p) => {
+                rep.violation(&format!("{fam}/enforcement-panics/{}", common::panic_site(&p)), format!("enforcing the parsed rule panicked: {p}"), case(json!("enforce")));
+                return;
+            }
+        };
+        if let Some(t2) = e2 {
             enforced = true;
             if t1 != t2 {
                 rep.violation(&format!("{fam}/enforcement-differs-after-round-trip"), format!("original: {t1}\nparsed:   {t2}"), case(json!("enforce")));
